@@ -44,6 +44,20 @@ pub fn check_to_int(rep: &mut Report, w: &[u32], seed: u64) {
 fn check_order(rep: &mut Report, a: &[u32], b: &[u32], seed: u64) {
     rep.inc("order_probes");
     let (sa, sb) = (s(a), s(b));
+    // read-only observers called on ONE of the two strings first (every other pair): they must not change how the
+    // string compares afterwards
+    if (a.len() + b.len()) % 2 == 0 {
+        let _ = (sa.is_unicode(), sa.is_good(), sa.len(), sa.is_empty(), sa.to_string(), sa.iter().count());
+        if sa.is_unicode() {
+            let _ = sa.to_unicode_string();
+        }
+        rep.inc("order_probes_after_observer_calls");
+    }
+    // the order is consistent with equality: exactly one of a < b, a == b, b < a
+    let (eq, gt) = (sa == sb, str_lt(&sb, &sa));
+    if eq != (a == b) || [str_lt(&sa, &sb), eq, gt].iter().filter(|&&x| x).count() != 1 || (str_le(&sa, &sb) && str_le(&sb, &sa)) != eq {
+        rep.violation("order", "order:equality", format!("{} and {}: == is {}, str_lt = {}, reverse str_lt = {}, str_le both ways = {}; the order is not consistent with equality", show_str(a), show_str(b), eq, str_lt(&sa, &sb), gt, str_le(&sa, &sb) && str_le(&sb, &sa)), "order", &format!("{} ; {}", case_of(a), case_of(b)), seed);
+    }
     let (lt, le) = (str_lt(&sa, &sb), str_le(&sa, &sb));
     if lt != o::lt(a, b) || le != o::le(a, b) {
         rep.violation("order", "order:wrong", format!("str_lt({}, {}) = {}, str_le = {}; lexicographic order says {} / {}", show_str(a), show_str(b), lt, le, o::lt(a, b), o::le(a, b)), "order", &format!("{} ; {}", case_of(a), case_of(b)), seed);
